@@ -22,6 +22,12 @@ QUERY_TRUST = [
     "binary64 comparison of the Go runtime = Lean Float (driver only; theorems hold for every number type)",
 ]
 
+SEARCH_TRUST = [
+    "container/heap is a correct priority queue for the given Less (the model's queue is a sorted list; ties at the cut-off are unconstrained)",
+    "distances are compared as float64; the model uses their bit patterns, order-isomorphic for non-negative non-NaN values (NaN-freedom is C06)",
+    "the distance of each candidate is computed by the implementation's own distance function on the stored vector and passed to the model",
+]
+
 PROPS = {
     "C01": dict(
         modules=["Syzgy.Props.C01"], ties=["Storage"],
@@ -59,5 +65,18 @@ PROPS = {
         trusted=QUERY_TRUST,
         statement="accepted ⇒ all tokens consumed; a condition after `null` is taken into account",
         partial="proved: acceptance only at EOF for every token source; the null literal is consumed. The corollaries 'A J / A B rejected' for rendered expressions are checked by correspondence on generated triples",
+    ),
+    "C03": dict(
+        modules=["Syzgy.Props.C03"], ties=["Search"],
+        runs={"quick": [["search-C03", "--scenarios", "150"]], "thorough": [["search-C03", "--scenarios", "1500"]]},
+        trusted=SEARCH_TRUST,
+        statement="bounded max-heap scan = K smallest / all within radius, any visiting order",
+        partial="PercentSearched = 100 is checked on the implementation only (direct oracle)",
+    ),
+    "C16": dict(
+        modules=["Syzgy.Props.C16"], ties=["Search"],
+        runs={"quick": [["search-C16", "--scenarios", "120"]], "thorough": [["search-C16", "--scenarios", "1200"]]},
+        trusted=SEARCH_TRUST + ["sort.Strings orders the decimal id strings (fixed order independent of offset/limit)"],
+        statement="page = take lim ∘ drop off of the filtered sorted listing",
     ),
 }
